@@ -143,6 +143,36 @@ func addJSONIntrinsics(t map[string]intrinsic) {
 	}
 	t["github.com/goccy/go-json.Marshal"] = marshal
 	t["encoding/json.Marshal"] = marshal
+	// decoding into a generic map: an opaque but deterministic and injective function of the input bytes
+	// (the same stub serves every entry point, so equal bodies decode equally)
+	unmarshal := func(tag string) intrinsic {
+		return func(m *Machine, fr *frame, a []Value) Value {
+			data := sliceTerms(a[0])
+			target, _ := a[1].(Iface)
+			cell, ok := target.V.(*Value)
+			if !ok || cell == nil {
+				m.unsupported("%s.Unmarshal: target is not a pointer", tag)
+			}
+			pt, _ := target.T.Underlying().(*types.Pointer)
+			mt, isMap := pt.Elem().Underlying().(*types.Map)
+			if !isMap {
+				m.unsupported("%s.Unmarshal into %v is not modelled", tag, pt.Elem())
+			}
+			if len(data) == 0 {
+				et := m.lookupType("errors", "errorString")
+				ec := new(Value)
+				*ec = Struct{m.mkStr("unexpected end of input")}
+				return Iface{T: types.NewPointer(et), V: ec}
+			}
+			mp := &MapV{KT: mt.Key(), VT: mt.Elem()}
+			mp.Entries = append(mp.Entries, &mapEntry{K: m.mkStr("decoded-by-" + tag), V: Iface{T: types.Typ[types.String], V: Str{data}}})
+			m.store(cell, mp)
+			return Iface{}
+		}
+	}
+	t["github.com/goccy/go-json.Unmarshal"] = unmarshal("json")
+	t["encoding/json.Unmarshal"] = unmarshal("json")
+	t["gopkg.in/yaml.v3.Unmarshal"] = unmarshal("yaml")
 }
 
 var _ = fmt.Sprint
